@@ -491,9 +491,10 @@ package bgp
 //@   ensures result1 != nil && result1.(*MessageError).SubTypeCode == BGP_ERROR_SUB_UNACCEPTABLE_HOLD_TIME ==> m.HoldTime == 1 || m.HoldTime == 2
 //@   ensures result1 != nil && result1.(*MessageError).SubTypeCode == BGP_ERROR_SUB_BAD_PEER_AS ==> expectedAS != 0
 //@ props C07
+//@ spec isNotif(m *BGPMessage, code int, sub int) bool = m != nil && m.Header.Type == BGP_MSG_NOTIFICATION && typeOf(m.Body) == (*BGPNotification) && m.Body.(*BGPNotification) != nil && int(m.Body.(*BGPNotification).ErrorCode) == code && int(m.Body.(*BGPNotification).ErrorSubcode) == sub
 //@ func NewBGPNotificationMessage
 //@   modifies nothing
-//@   ensures result != nil && fresh(result)
+//@   ensures result != nil && fresh(result) && isNotif(result, int(errcode), int(errsubcode))
 
 // attribute constructors used by the policy actions: allocate, never write caller-visible memory
 //@ props C10
